@@ -1,7 +1,7 @@
 use super::segment_batch::SegmentBatch;
 use crate::engine::core::read::cache::{
-    GlobalColumnBlockCache, GlobalColumnHandleCache, GlobalIndexCatalogCache, GlobalZoneIndexCache,
-    GlobalZoneSurfCache,
+    GlobalColumnBlockCache, GlobalColumnHandleCache, GlobalEnumCache, GlobalIndexCatalogCache,
+    GlobalZoneIndexCache, GlobalZoneSurfCache, GlobalZoneXorFilterCache,
 };
 use crate::engine::core::segment::segment_id::SegmentId;
 use crate::engine::core::{SegmentEntry, SegmentIndex};
@@ -320,6 +320,8 @@ impl CompactionHandover {
             self.zone_index_cache.invalidate_segment(label);
             self.index_catalog_cache.invalidate_segment(label);
             self.column_block_cache.invalidate_segment(label);
+            GlobalZoneXorFilterCache::instance().invalidate_segment(label);
+            GlobalEnumCache::instance().invalidate_segment(label);
             debug!(
                 target: "compaction_handover::cache",
                 shard = self.shard_id,
